@@ -51,6 +51,9 @@ XmlTrees == [i \in DOMAIN XmlTexts |-> Leaf(R, XmlTexts[i])]
             \o [i \in DOMAIN XmlTexts |-> Elem(R, << <<NID, A>> >>, <<>>, XmlTexts[i])]
             \o [i \in DOMAIN XmlTexts |-> Elem(R, <<>>, <<Leaf(NA, XmlTexts[i]), Leaf(NB, A)>>, <<>>)]
             \o [i \in DOMAIN XmlTexts |-> Elem(R, <<>>, <<Leaf(NA, XmlTexts[i]), Leaf(NA, A), Leaf(NB, A)>>, <<>>)]                      \* repeated children
+            \o [i \in DOMAIN XmlTexts |-> Elem(R, <<>>, <<Leaf(NA, XmlTexts[i]), Leaf(NB, A), Leaf(NA, A)>>, <<>>)]                      \* repeated children that are not neighbours
+            \o << Elem(R, <<>>, <<Leaf(NA, A), Leaf(NB, A), Leaf(NA, <<>>), Leaf(NB, A), Leaf(NA, A)>>, <<>>),
+                  Elem(R, <<>>, <<Elem(NA, <<>>, <<Leaf(NB, A), Leaf(NA, A), Leaf(NB, <<>>)>>, <<>>), Leaf(NB, A), Elem(NA, << <<NID, A>> >>, <<>>, <<>>)>>, <<>>) >>
             \o [i \in DOMAIN XmlTexts |-> Elem(R, << <<NID, A>> >>, <<Elem(NA, << <<NID, XmlTexts[i]>> >>, <<Leaf(NB, XmlTexts[i])>>, <<>>), Leaf(NB, <<>>)>>, <<>>)]
 LuaValues == [i \in DOMAIN LuaStrs |-> JMap(<< <<K1, JStr(LuaStrs[i])>> >>)]
              \o [i \in DOMAIN LuaStrs |-> JMap(<< <<LuaStrs[i], Num(1)>>, <<K2, JSeq(<<JStr(LuaStrs[i]), Num(-2), Flt, JBool(TRUE)>>)>> >>)]
